@@ -6,7 +6,7 @@ from harness import common, gen_tree, trees, treeimpl
 from harness.common import cps, uncps
 from harness.props.c01 import all_texts
 
-BRIDGE = ('Gemato.Bridge.Tree', 'Gemato.Bridge.SrcVerify', 'Gemato.Bridge.SrcLoader', 'Gemato.Bridge.SrcWalk', 'Gemato.Bridge.SrcText', 'Gemato.Bridge.SrcCodec')
+BRIDGE = ('Gemato.Bridge.Tree', 'Gemato.Bridge.SrcVerify', 'Gemato.Bridge.SrcLoader', 'Gemato.Bridge.SrcWalk', 'Gemato.Bridge.SrcText', 'Gemato.Bridge.SrcCodec', 'Gemato.Bridge.SrcHash')
 PROPS = ['Gemato.Props.C02', 'Gemato.Props.C02b']
 APIS = ['assert_directory_verifies', 'assert_directory_verifies(sub)', 'verify_path', 'assert_path_verifies', 'find_path_entry',
         'find_dist_entry']
